@@ -112,7 +112,7 @@ pub fn deviations(base: &Case, max_wits: usize) -> Vec<Dev<Case>> {
     let era = base.era;
     let slot = base.env.slot;
     let is_b2 = base.base.starts_with("B2");
-    let is_b3 = base.base.starts_with("B3") || base.base.starts_with("B4");
+    let is_b3 = base.base.starts_with("B3");
     let mut d: Vec<Dev<Case>> = vec![];
     macro_rules! dev {
         ($name:expr, $dim:expr, $f:expr) => {
@@ -544,7 +544,7 @@ pub fn deviations(base: &Case, max_wits: usize) -> Vec<Dev<Case>> {
             if base_v2 != Some(vec![plutus_script()]) {
                 dev!("wits.plutus_v2=[script]", "plutus2", |c: &mut Case| c.tx.wits.plutus_v2 = Some(vec![plutus_script()]));
             } else {
-                // base B4: the V2 list is what locks the inputs
+                // base B3v2: the V2 list is what locks the inputs
                 dev!("wits.plutus_v2=none", "plutus2", |c: &mut Case| c.tx.wits.plutus_v2 = None);
                 dev!("wits.plutus_v2=[other]", "plutus2", |c: &mut Case| c.tx.wits.plutus_v2 = Some(vec![plutus_script_other()]));
                 dev!("wits.plutus_v2=[script,other]", "plutus2", |c: &mut Case| c.tx.wits.plutus_v2 = Some(vec![plutus_script(), plutus_script_other()]));
